@@ -8,111 +8,100 @@ BASE_TRUST = ("Trusted: pyvc's own encoding of the CPython subset (cross-checked
               "contracts named in the evidence file's trusted_base; bounded parts are labelled bounded and never counted as proved.")
 
 # pid -> (category, text, design_ref, technique, note)
-CLAIMS = {
-    "C06": ("other",
-            "Contracts on the real query-evaluation chain (_find_with_index_operator per operator, _find_expression, _find_result, "
-            "_root_keys/_add_prefix) discharged for all inputs by pyvc+z3 against a per-job matcher specification; regex and isclose are "
-            "uninterpreted (wiring proved). Known finding F3 ($type bool vs 0/1 conflation) is reported, so the level is 'other' rather than "
-            "'proof'; a bounded run-time contract check of find() against a reference evaluator is the stand-in/replay oracle.",
-            "DESIGN 4/C06", "contract-based deductive verification (own VC generator over the real AST, z3) + bounded contract checking as replay oracle",
-            BASE_TRUST),
-}
-
+TECH = "contract-based deductive verification: own VC generator over the real /repo AST, sidecar contracts, z3 (cvc5 finite model finding for counter-models)"
 FS_NOTE = BASE_TRUST + " FS tier: POSIX contracts of os.replace/remove/makedirs, shutil.rmtree/copytree (multi-step), the synced_collections read/write contract, CALC as function of the JSON value."
-CLAIMS.update({
-    "C02": ("other", "Contracts on Project.open_job (no disk effect, unaliased copy), Job.__init__, Job.init (creates a validating directory, idempotent, never rewrites without force), "
-            "_StatePointDict.save/load (save-if-absent, load returns only validated data) discharged for all symbolic pre-states and injected faults. Listing / prefix resolution by id "
-            "are bounded-only so far, hence level 'other'.", "DESIGN 4/C02", "contract-based deductive verification (pyvc VC generator over the real AST, z3) over a structured FS ghost state", FS_NOTE),
-    "C03": ("other", "One Hoare triple per mutating operation under contract so far (init, remove, re-key _save, move, clone, open_job, Job.__init__): each preserves the job class invariant and the "
-            "frame 'every other job untouched'; the lift to arbitrary histories is the induction over these triples (not mechanised yet). Level 'other' until every operation of the property is under contract.",
-            "DESIGN 4/C03", "contract-based deductive verification (class invariant + per-operation triples, pyvc+z3)", FS_NOTE),
-    "C04": ("other", "Re-key (_StatePointDict._save) proved for an arbitrary number of live handles: directory moved with all entries, new state point written, no backup left, every handle follows; "
-            "DestinationExistsError implies byte-identical state; occupied destination never clobbered. Job.move and Project.clone likewise. update_statepoint / copy protocols not yet under contract: level 'other'.",
-            "DESIGN 4/C04", "contract-based deductive verification (pyvc+z3), arbitrary-element loop rule for the handle list", FS_NOTE),
-    "C09": ("other", "Hash validation on load (_StatePointDict.load: returns only data whose id matches, otherwise JobsCorruptedError naming the job) and Job.init(force) contracts discharged. "
-            "check()/repair() loops are not yet under contract: level 'other'.", "DESIGN 4/C09", "contract-based deductive verification (pyvc+z3)", FS_NOTE),
-    "C11": ("other", "Crash-point invariants asserted after every file-system effect on every path, and exceptional postconditions for an injected OSError (symbolic errno != ENOENT) at every external, "
-            "for Job.init, _StatePointDict.save, the re-key protocol, move, clone and remove. clear/reset not yet under contract: level 'other'.",
-            "DESIGN 4/C11", "contract-based deductive verification with effect traces and fault injection at every external (pyvc+z3)", FS_NOTE),
-})
-
-CLAIMS.update({
-    "C08": ("other", "Cache validity invariant (every entry hashes to its key) proved as an invariant of every function that writes the in-memory or persistent cache under contract "
-            "(_get_statepoint, _read_cache, update_cache, Job.init, move, re-key); update_cache postcondition: the file lists exactly the workspace ids, 'nothing to do' iff it already did; "
-            "_get_statepoint returns a value hashing to the id whether it came from the cache or the workspace (transparency). _update_in_memory_cache (thread pool) is an assumed contract "
-            "(bounded check): level 'other'.", "DESIGN 4/C08", "contract-based deductive verification (pyvc+z3), cache maps as z3 arrays", FS_NOTE),
-    "C10": ("other", "update_cache crash invariant asserted after every file-system effect incl. create/truncate and torn writes of the temp file: the cache file is always the complete old "
-            "or a complete new content, only the '~' temp file may be torn, temp removed on error. Documents: the constructor sites pass write_concern=True (call-site obligations); the "
-            "dependency's temp+replace contract itself is assumed (bounded crash-injection check).", "DESIGN 4/C10",
-            "contract-based deductive verification with effect traces (pyvc+z3)", FS_NOTE),
-})
-
-CLAIMS.update({
+SYNC_NOTE = BASE_TRUST + " Sync tier: filecmp.dircmp listing contract (left_only / diff_files / subdirs; deep = content comparison), shutil.copytree 'always creates the destination directories', dict semantics of documents, os.stat mtime."
+CLAIMS = {
     "C01": ("other", "calc_id's call-site conformance to the canonical-JSON / UTF-8 / MD5 contracts proved (any other json.dumps option, encoder, encoding or digest use fails the postcondition); "
             "both loaders return only data whose re-derived id equals the requested id; open_job hands Job an unaliased deep copy; Job.__init__ derives the id from the state point. "
             "The json/md5 contracts themselves (canonical form, type-exact round trip) are assumed and validated by the bounded layer against an independent canonical writer.",
-            "DESIGN 4/C01", "contract-based deductive verification (pyvc+z3) with keyed contracts for json.dumps/md5; bounded validation of the dependency contracts", BASE_TRUST),
-    "C18": ("other", "diff_jobs proved against set algebra on flattened (key, value) pairs for 0..3 jobs of arbitrary content (each diff = pairs not shared by all; common + diff reconstructs); "
-            "detect_schema / _build_job_statepoint_index only bounded so far (known finding F3 on the index).", "DESIGN 4/C18",
-            "contract-based deductive verification (pyvc+z3) for diff_jobs; bounded contract checking for detect_schema", BASE_TRUST),
-    "C19": ("other", "_locate_config_dir proved with loop invariants and a decreasing variant over an axiomatised directory chain: returns the nearest enclosing directory with a config, raises "
-            "IncompatibleSchemaVersion only at a legacy project with no current config enclosing, None only if nothing encloses. get_project/get_job/init_project wiring bounded only so far.",
-            "DESIGN 4/C19", "contract-based deductive verification (pyvc+z3, inductive loop invariants over a directory-chain theory)", BASE_TRUST),
-    "C20": ("other", "Integer contract of the version gate (_check_schema_compatibility passes iff version == 2, for every integer), _raise_if_older_schema refuses every loadable config of "
-            "another version, _locate_config_dir's legacy scan; migration functions bounded only so far.", "DESIGN 4/C20",
-            "contract-based deductive verification (pyvc+z3)", BASE_TRUST),
-})
-
-SYNC_NOTE = BASE_TRUST + " Sync tier: filecmp.dircmp listing contract (left_only / diff_files / subdirs; deep = content comparison), shutil.copytree 'always creates the destination directories', dict semantics of documents."
-CLAIMS.update({
-    "C13": ("other", "One directory level of the file walk (_sync_job_workspaces) proved for all listings, exclude sets and strategies: left-only files copied iff not excluded, left-only directories iff "
-            "recursive, differing files iff the strategy says so, nothing else copied, every copy goes to the same relative place, common sub-directories visited with all options forwarded (the recursive "
-            "call is the induction hypothesis). sync_jobs / sync_projects wiring: reserved files excluded by exact name, exactly the selected jobs cloned or synchronised, schema gate before any effect. "
-            "Source-unchanged / idempotence / superset over whole projects: bounded run-time contracts.", "DESIGN 4/C13",
-            "contract-based deductive verification (pyvc+z3) of the per-level triple and the call-site obligations; bounded contract checking of whole-project clauses", SYNC_NOTE),
-    "C14": ("other", "'Overwritten iff the strategy returns true' and 'FileSyncConflict before touching any differing file' proved per directory level; DocSync.ByKey per nesting level: a key is "
-            "overwritten iff absent or differing-scalar-and-selected, differing mappings are merged recursively under the full dotted prefix, unselected conflicts recorded under their full name; "
-            "create_backup / create_doc_backup: on any exception of the body the document is its pre-sync content and the backup is removed.", "DESIGN 4/C14",
-            "contract-based deductive verification (pyvc+z3), generator context managers executed at their yield point", SYNC_NOTE),
-    "C15": ("other", "Dry-run frame proved for every method of _FileModifyProxy and _DocProxy (no file-system call, no document mutation, completes like the live run), for ByKey's nested writes (gated "
-            "destination required at the recursive call) and up through sync_jobs (never initialises the destination in a dry run); deep / recursive / exclude / strategy / proxy forwarding proved as call-site "
-            "obligations of sync_jobs, sync_projects and the recursive walk. parallel=True/N: bounded only (thread pool outside the sequential executor).", "DESIGN 4/C15",
-            "contract-based deductive verification (pyvc+z3): frame obligations on an effect log, call-site forwarding obligations", SYNC_NOTE),
-})
-
-CLAIMS.update({
-    "C07": ("other", "_add_prefix / _root_keys proved per filter entry over z3 strings (a key gets the default sp. prefix iff it names no namespace; every operand of $and/$or/$not is reached), "
-            "with counter-models replayed as concrete keys; JobsCursor len / membership / indexing proved to describe the one id list obtained from _find_job_ids with the cursor's own filter. "
-            "Spelling equivalences over whole queries, command-line token casting and groupby are bounded run-time contracts (known finding F6: groupby with dotted keys).",
-            "DESIGN 4/C07", "contract-based deductive verification (pyvc+z3 incl. string theory); bounded contract checking for the string front ends and groupby", BASE_TRUST),
-})
-
-CLAIMS.update({
+            "DESIGN 4/C01, 11", TECH + " with keyed contracts for json.dumps/md5; bounded validation of the dependency contracts", BASE_TRUST),
+    "C02": ("other", "Contracts discharged for all symbolic pre-states and injected faults on Project.open_job (by state point: no disk effect, unaliased copy; by cached id; by full uncached id; by "
+            "abbreviated id: resolved against the job directories only, unique => that job, none => KeyError, ambiguous => LookupError), Job.__init__, Job.init (creates a validating directory, "
+            "idempotent, never rewrites without force), _StatePointDict.save/load (save-if-absent, load returns only validated data and leaves the in-memory data alone when the file is rejected), "
+            "the listing generator _job_dirs, __len__, __contains__. Whole-session statements (fresh Project finds the job by every route) are bounded model-based histories: level 'other'.",
+            "DESIGN 4/C02, 11", TECH + " over a structured FS ghost state; filtered id collections for prefix resolution", FS_NOTE),
+    "C03": ("other", "One Hoare triple per mutating operation (init, remove, clear, reset, re-key _save, move, clone, statepoint setter, update_statepoint, open_job, Job.__init__): each preserves the "
+            "job class invariant and the frame 'every other job untouched'; the lift to arbitrary histories is the induction over these triples (stated, not mechanised) and is sampled by the "
+            "bounded model-based histories: level 'other'.",
+            "DESIGN 4/C03, 11", TECH + ": class invariant + per-operation triples", FS_NOTE),
+    "C04": ("other", "Re-key (_StatePointDict._save) proved for an arbitrary number of live handles: directory moved with all entries, new state point written, no backup left, every handle follows; "
+            "DestinationExistsError implies byte-identical state; occupied destination never clobbered. Job.move, Project.clone, the statepoint setter and update_statepoint (conflict => KeyError "
+            "without effect; otherwise the live state point updated) likewise. Copy / pickle protocols are bounded (known finding F22).",
+            "DESIGN 4/C04, 11", TECH + ", arbitrary-element loop rule for the handle list", FS_NOTE),
     "C05": ("other", "What signac itself contributes is proved: Job.document hands out one cached BufferedJSONAttrDict bound to this job's document file with write_concern=True, only after the "
             "directory exists; `job.document = v` resets that persistent document exactly once whatever the value; handles are dropped on remove / id change (C03/C04 contracts); signac.buffered & "
             "friends are attributes of that very class. The dict / buffering semantics themselves belong to the dependency: assumed, and checked bounded against a plain dict model (dependency "
-            "findings F23/F24 recorded).", "DESIGN 4/C05", "contract-based deductive verification of the wiring (pyvc+z3); bounded model-equality contract for the dependency's dict semantics", FS_NOTE),
-})
-
-CLAIMS.update({
-    "C16": ("other", "Export/import is mostly archive and string handling outside the deductive subset: the property is decided by the bounded layer (round trips over textually colliding "
-            "universes x 6 target kinds x 8 path specs, leaf/node order checks, zip member selection); Project.clone / Job.init contracts (C04/C02) carry the 'never overwrites an existing job' and "
-            "'validates after copy' clauses. Three defects found this way were repaired (F17, F19, F25); F18 is a known finding.", "DESIGN 4/C16",
-            "bounded run-time contract checking (stand-in, labelled bounded) + the deductive contracts of the copy/init primitives it is built on", BASE_TRUST),
-    "C17": ("other", "_update_view proved with loop invariants over three symbolic work lists: every obsolete path removed, every changed link unlinked and re-created, every new link created, "
-            "nothing else touched, and an early 'up to date' exit only when all lists are empty. Tree colouring / os.walk helpers and the whole-view statements (one link per job, equals a from-scratch "
-            "build, idempotent) are bounded; F18 / F20 / F21 are known findings.", "DESIGN 4/C17",
-            "contract-based deductive verification (pyvc+z3) of _update_view; bounded contract checking of the view as a whole", BASE_TRUST),
-})
-
-CLAIMS.update({
+            "findings F23/F24 recorded).", "DESIGN 4/C05, 11", TECH + " of the wiring; bounded model-equality contract for the dependency's dict semantics", FS_NOTE),
+    "C06": ("other",
+            "Contracts on the real query-evaluation chain (_find_with_index_operator per operator and argument container, _find_expression, _find_result, Project._build_index, "
+            "_root_keys/_add_prefix) discharged for all inputs against a per-job matcher specification; regex and isclose are uninterpreted (wiring proved). Known finding F3 "
+            "($type bool vs 0/1 conflation) is reported, so the level is 'other' rather than 'proof'; a bounded run-time contract check of find() against a reference evaluator is the "
+            "stand-in/replay oracle.",
+            "DESIGN 4/C06, 11", TECH + " + bounded contract checking as replay oracle", BASE_TRUST),
+    "C07": ("other", "_add_prefix / _root_keys proved per filter entry over z3 strings (a key gets the default sp. prefix iff it names no namespace; every operand of $and/$or/$not is reached), "
+            "with counter-models replayed as concrete keys; JobsCursor len / membership / indexing proved to describe the one id list obtained from _find_job_ids with the cursor's own filter; "
+            "JobsCursor.groupby proved over a filter-meaning evaluator: exactly the cursor's jobs (having every key when no default is given) are grouped, one key function sorts and groups, "
+            "the label is the job's own value (flat keys; dotted keys are known finding F6). Spelling equivalences over whole queries and command-line token casting are bounded.",
+            "DESIGN 4/C07, 11", TECH + " incl. string theory; bounded contract checking for the string front ends", BASE_TRUST),
+    "C08": ("other", "Cache validity invariant (every entry hashes to its key) proved as an invariant of every function that writes the in-memory or persistent cache under contract "
+            "(_get_statepoint, _read_cache, update_cache, Job.init, move, re-key, statepoint setter); update_cache postcondition: the file lists exactly the workspace ids, 'nothing to do' iff it "
+            "already did; _get_statepoint returns a value hashing to the id whether it came from the cache or the workspace (transparency). _update_in_memory_cache (thread pool) is an assumed "
+            "contract (bounded check): level 'other'.", "DESIGN 4/C08, 11", TECH + ", cache maps as z3 arrays", FS_NOTE),
+    "C09": ("other", "Hash validation on load (_StatePointDict.load: returns only data whose id matches, otherwise JobsCorruptedError naming the job), Job.init(force), Project.check (accumulator "
+            "invariant: names exactly the damaged ids, reads the workspace not the cache) and Project.repair (per-job triple, cache first, no exception escapes) discharged. 'Every repairable job "
+            "is repaired' over whole workspaces is bounded (damage scenarios).", "DESIGN 4/C09, 11", TECH, FS_NOTE),
+    "C10": ("other", "update_cache crash invariant asserted after every file-system effect incl. create/truncate and torn writes of the temp file: the cache file is always the complete old "
+            "or a complete new content, only the '~' temp file may be torn, temp removed on error. Documents: the constructor sites pass write_concern=True (call-site obligations) and opening "
+            "a persistent job file for writing in place is a forbidden effect for Job.clear / Job.reset and every other function under a job contract; the dependency's temp+replace contract "
+            "itself is assumed and exercised by the bounded crash-injection layer (process killed at every file-system step).", "DESIGN 4/C10, 11",
+            TECH + " with effect traces; bounded crash injection", FS_NOTE),
+    "C11": ("other", "Crash-point invariants asserted after every file-system effect on every path, and exceptional postconditions for an injected OSError (symbolic errno != ENOENT) at every external, "
+            "for Job.init, _StatePointDict.save/load, the re-key protocol, move, clone, remove, clear, reset, check and the repair body. Multi-step externals (rmtree, copytree) by assumed "
+            "partial-effect contracts; a bounded fault / crash injection layer runs the same operations natively.",
+            "DESIGN 4/C11, 11", TECH + " with effect traces and fault injection at every external", FS_NOTE),
     "C12": ("other", "Rely/guarantee verification at file-system-call granularity of the actor functions Project.__init__, _mkdir_p and Job.init (executed down through Job.statepoint, "
             "_StatePointDict.load/save and the dependency's read/write contracts): under interference by any number of other actors of the script set before every file-system call, no "
-            "exception escapes, the job directory holds a valid state point on return, and every own effect is a step the others may rely on (directories only appear, state point files are "
-            "only ever written atomically with a content valid for that id). This covers every interleaving, not a sample. Document-write visibility and torn-read freedom rest on the "
-            "dependency's atomic-replace contract (assumed; see C10); listing under interference and the whole-run lemma are not mechanised: level 'other'.",
-            "DESIGN 4/C12", "contract-based deductive verification in rely/guarantee mode (pyvc+z3): interference before every external, guarantee obligation per effect", FS_NOTE),
-})
+            "exception escapes, the job directory holds a valid state point on return, and every own effect is a step the others may rely on. This covers every interleaving, not a sample. "
+            "Document-write visibility and torn-read freedom rest on the dependency's atomic-replace contract (assumed; see C10); listing under interference and the whole-run lemma are not "
+            "mechanised: level 'other'.",
+            "DESIGN 4/C12, 11", TECH + " in rely/guarantee mode: interference before every external, guarantee obligation per effect", FS_NOTE),
+    "C13": ("other", "One directory level of the file walk (_sync_job_workspaces) proved for all listings, exclude sets and strategies: left-only files copied iff not excluded, left-only directories iff "
+            "recursive, differing files iff the strategy says so, nothing else copied, every copy goes to the same relative place, common sub-directories visited with all options forwarded (the recursive "
+            "call is the induction hypothesis). sync_jobs / sync_projects wiring: reserved files excluded by exact name, exactly the selected jobs (an empty selection: none) cloned or synchronised, "
+            "schema gate before any effect. Source-unchanged / idempotence / superset over whole projects: bounded run-time contracts.", "DESIGN 4/C13, 11",
+            TECH + " of the per-level triple and the call-site obligations; bounded contract checking of whole-project clauses", SYNC_NOTE),
+    "C14": ("other", "'Overwritten iff the strategy returns true' and 'FileSyncConflict before touching any differing file' proved per directory level; FileSync.update / always / never proved against "
+            "an os.stat model (update: iff the source is strictly newer); DocSync.ByKey per nesting level: a key is overwritten iff absent or differing-scalar-and-selected, differing mappings are "
+            "merged recursively under the full dotted prefix, unselected conflicts recorded under their full name; create_backup / create_doc_backup: on any exception of the body the document "
+            "is its pre-sync content and the backup is removed.", "DESIGN 4/C14, 11",
+            TECH + ", generator context managers executed at their yield point", SYNC_NOTE),
+    "C15": ("other", "Dry-run frame proved for every method of _FileModifyProxy and _DocProxy (no file-system call, no document mutation, completes like the live run), for ByKey's nested writes (gated "
+            "destination required at the recursive call) and up through sync_jobs (never initialises the destination in a dry run); deep / recursive / exclude / strategy / proxy forwarding proved as call-site "
+            "obligations of sync_jobs, sync_projects and the recursive walk. parallel=True/N: bounded only (thread pool outside the sequential executor).", "DESIGN 4/C15, 11",
+            TECH + ": frame obligations on an effect log, call-site forwarding obligations", SYNC_NOTE),
+    "C16": ("other", "Export side under contract: _check_directory_structure_validity proved with loop invariants over a token-prefix theory (accepted iff no export path is a proper token prefix of "
+            "another, in any order), _check_path_function_unique (refused iff two jobs share a path), _make_path_function (a generated path function is only returned after the one-to-one check), "
+            "_export_jobs (checks before the first copy, exactly one copy and one report per job); Project.clone / Job.init carry 'never overwrites an existing job'. The import analysers and the "
+            "archive libraries are outside the subset: round trips are decided by the bounded layer. Four defects found this way were repaired (F17, F18, F19, F25).", "DESIGN 4/C16, 11",
+            TECH + " for the export-side checks; bounded run-time contract checking (stand-in, labelled bounded) for whole round trips", BASE_TRUST),
+    "C17": ("other", "_update_view proved with loop invariants over three symbolic work lists: every obsolete path removed, every changed link unlinked and re-created, every new link created, "
+            "nothing else touched, and an early 'up to date' exit only when all lists are empty. Tree colouring / os.walk helpers and the whole-view statements (one link per job, equals a from-scratch "
+            "build, idempotent) are bounded; F18 / F20 / F21 were found and repaired.", "DESIGN 4/C17, 11",
+            TECH + " of _update_view; bounded contract checking of the view as a whole", BASE_TRUST),
+    "C18": ("other", "diff_jobs proved against set algebra on flattened (key, value) pairs for 0..3 jobs of arbitrary content (each diff = pairs not shared by all; common + diff reconstructs); "
+            "detect_schema proved to summarise exactly the selected existing jobs (an empty selection selects nothing) with exclude_const forwarded; _build_index per job. "
+            "_build_job_statepoint_index is bounded (known finding F3 on the index).", "DESIGN 4/C18, 11",
+            TECH + "; bounded contract checking against reference summaries", BASE_TRUST),
+    "C19": ("other", "_locate_config_dir proved with loop invariants and a decreasing variant over an axiomatised directory chain; Project.get_project (nearest enclosing project, only the directory "
+            "itself without search, LookupError conditions), Project.get_job (the last id-like path component, project searched from its parent), Project.init_project (an existing project is "
+            "returned without any write; nothing is written before the legacy gate) and the module-level front ends proved on top of it. Whole directory trees incl. symlinks and relative paths "
+            "are bounded.", "DESIGN 4/C19, 11", TECH + ", inductive loop invariants over a directory-chain theory", BASE_TRUST),
+    "C20": ("other", "Integer contract of the version gate (_check_schema_compatibility passes iff version == 2, for every integer), _raise_if_older_schema refuses every loadable config of "
+            "another version, _locate_config_dir's legacy scan, init_project's legacy gate, and the migration chain (_collect_migrations, apply_migrations, _migrate_v1_to_v2: exactly the "
+            "documented effects in order) discharged; configobj / filelock and end-to-end preservation of every job are bounded (legacy configurations migrated with the real code).",
+            "DESIGN 4/C20, 11", TECH, BASE_TRUST),
+}
 
 NOT_YET = "not yet under contract in this round of the build (see DESIGN.md section 8 for the order); no check is registered, nothing is claimed"
 
